@@ -193,3 +193,69 @@ func allocMaps(v reflect.Value) int {
 	}
 	return n
 }
+
+// StorageTwin returns a second tree with its own structs, maps, ordered maps and unkeyed-list
+// slices, whose leaves share their storage with s: scalar leaf pointers, leaf-list slices,
+// binary values and union values are the same cells in both trees.  This is the tree a caller
+// obtains by copying container structs by value (a candidate derived from a running
+// configuration, entries filled from one template value): a legal tree in which leaves share
+// storage.  An operation on s that writes through existing leaf storage instead of replacing
+// it changes the twin's leaves too.
+func StorageTwin(s interface{}) interface{} {
+	return twin(reflect.ValueOf(s)).Interface()
+}
+
+func twin(v reflect.Value) reflect.Value {
+	if !v.IsValid() {
+		return v
+	}
+	switch v.Kind() {
+	case reflect.Ptr:
+		if v.IsNil() || v.Elem().Kind() != reflect.Struct {
+			return v // a scalar leaf: shared
+		}
+		n := reflect.New(v.Elem().Type())
+		n.Elem().Set(v.Elem())
+		for i := 0; i < n.Elem().NumField(); i++ {
+			f := n.Elem().Field(i)
+			exported := f.CanSet()
+			if !exported {
+				f = unexported(f)
+			}
+			switch f.Kind() {
+			case reflect.Ptr, reflect.Map:
+				f.Set(twin(f))
+			case reflect.Slice:
+				et := f.Type().Elem()
+				switch {
+				case f.IsNil():
+				case et.Kind() == reflect.Ptr && et.Elem().Kind() == reflect.Struct:
+					f.Set(twin(f)) // unkeyed list
+				case !exported:
+					// internal bookkeeping of an ordered map (its key order), not leaf storage
+					c := reflect.MakeSlice(f.Type(), f.Len(), f.Len())
+					reflect.Copy(c, f)
+					f.Set(c)
+				}
+			}
+		}
+		return n
+	case reflect.Map:
+		if v.IsNil() {
+			return v
+		}
+		m := reflect.MakeMapWithSize(v.Type(), v.Len())
+		it := v.MapRange()
+		for it.Next() {
+			m.SetMapIndex(it.Key(), twin(it.Value()))
+		}
+		return m
+	case reflect.Slice:
+		c := reflect.MakeSlice(v.Type(), v.Len(), v.Len())
+		for i := 0; i < v.Len(); i++ {
+			c.Index(i).Set(twin(v.Index(i)))
+		}
+		return c
+	}
+	return v
+}
